@@ -1067,6 +1067,37 @@ def run(ctx: Ctx, rs: RuleSet, tier: str):
            'every returned reference is derived from __qualname__',
            ctx.loc(add, add.node))
 
+  # ---- an unaliased `import a.b` may share the name `a` with an existing
+  # import only if that import binds `a` to the *module a*: decided by the
+  # full module name of the existing import, not by the name it binds (`from
+  # pkg import a` binds `a` too, to another module)
+  rule_i = 'AGREE.import-compatibility'
+  rs.declare(rule_i, 'two imports share a top-level name only when both bind '
+             'it to the same top-level module', 1)
+  ce = ctx.func(f'{CG}.import_manager.ImportManager._compatible_with_existing')
+  ok_c = False
+  why_c = 'no comparison of an existing import with the new one found'
+  for L in walk_function(ce.node):
+    if not (isinstance(L, ast.For) and isinstance(L.target, ast.Name)):
+      continue
+    lv = L.target.id
+    for r in walk_stmts(L.body):
+      if isinstance(r, ast.Return) and r.value is not None:
+        v = roles.deref_deep(ce, r.value)
+        calls_on_existing = {unparse(c.func).split('.')[-1]
+                             for c in ast.walk(v) if isinstance(c, ast.Call)
+                             and [unparse(a) for a in c.args] == [lv]}
+        ok_c = 'get_full_module_name' in calls_on_existing
+        why_c = ('the existing import is judged by its full module name'
+                 if ok_c else
+                 f'`{unparse(r.value)[:70]}` judges the existing import by '
+                 f'{sorted(calls_on_existing) or "something else"}, not by the '
+                 'module it imports: after `from pkg import m`, a plain '
+                 '`import m` is accepted without an alias and rebinds `m`, so '
+                 'symbols of pkg.m resolve in the wrong module when the '
+                 'generated code runs')
+  rs.check(ok_c, rule_i, ce.qualname, why_c, ctx.loc(ce, ce.node))
+
   # ---- sharing across generated functions (sub-fixture pass)
   _sub_fixture_sharing(ctx, rs)
 
